@@ -753,6 +753,14 @@ class AST2SCFGTransformer:
         that the target variable ``i`` will escape the scope of the for-loop.
 
         """
+        # The decomposition below assigns None and the sentinel to the target
+        # and compares the target with the sentinel, which only works for a
+        # target that can hold a single value.
+        if isinstance(node.target, (ast.Tuple, ast.List, ast.Starred)):
+            raise NotImplementedError(
+                "for-loop with an unpacking target not implemented"
+            )
+
         # Preallocate indices for header, body, else, and exiting blocks.
         head_index = self.block_index
         body_index = self.block_index + 1
